@@ -11,6 +11,7 @@ import Sidetree.Props.C05Num
 import Sidetree.Props.C03
 import Sidetree.Lemmas.Whitespace
 import Sidetree.Lemmas.EscapeSpelling
+import Sidetree.Lemmas.NumSpellingValue
 
 namespace Sidetree.Props.C05
 open Sidetree Sidetree.Json
@@ -61,6 +62,30 @@ theorem spelling_irrelevant_ints (v : Json) (t1 t2 : List Char) (h : intsOnly v 
 example (v : Json) (t1 t2 : List Char) (h : intsOnly v = true) (h1 : WS.Spells v t1) (h2 : WS.Spells v t2) :
     transform t1 = transform t2 :=
   spelling_irrelevant_ints v t1 t2 h (ES.spellsE_of_spells v t1 h1) (ES.spellsE_of_spells v t2 h2)
+
+/-! ### … and the spelling of numbers
+
+`NS.SpellsN v t`: as `ES.SpellsE`, and every number leaf may be written as any literal the reader
+reads as that leaf (`NS.SpellsNum`); `NS.SameUpToNumSpelling a b`: the same value up to the spelling
+of integer-valued numbers below 2^53 in magnitude (`1E3`, `1.0e3`, `10000e-1`, `1000`).
+(`Lemmas/NumSpelling.lean`, `NumSpellingValue.lean`.) No hypothesis on the other numbers: they
+must be the same literal on both sides. -/
+
+/-- **equivalent texts give identical bytes**: two texts that spell the same value up to
+    insignificant whitespace, the escape spelling of strings and member names, and the spelling of
+    integer-valued numbers are canonicalized to identical bytes (or refused alike) -/
+theorem equivalent_texts_identical_bytes (v1 v2 : Json) (t1 t2 : List Char) (h1 : NS.SpellsN v1 t1)
+    (h2 : NS.SpellsN v2 t2) (hs : NS.SameUpToNumSpelling v1 v2) : transform t1 = transform t2 :=
+  NS.transform_spelling_irrelevant v1 v2 t1 t2 h1 h2 hs
+
+/-- the normal form of a value whose numbers are integer-valued (in whatever spelling) has plain
+    integers only — so all the `…_ints` theorems apply to what canonicalization produced -/
+theorem normal_form_has_plain_integers (a a' : Json) (h : NS.IntValued a) (hn : a.normalize = some a') :
+    intsOnly a' = true := NS.normalizes_to_plain a a' h hn
+
+/-- `[1E3,1.0e3]` and `[ 1000 , 10000e-1 ]` are such texts -/
+example : NS.SameUpToNumSpelling (.arr [.num NS.lit1E3, .num NS.lit1p0e3])
+    (.arr [.num (JNum.ofInt 1000), .num NS.lit10000em1]) := NS.sample_same
 
 end Sidetree.Props.C05
 
